@@ -42,9 +42,10 @@ inline std::string labelTextFor(const std::string &lab, sim::Rng &r) {
     return "0";
 }
 inline std::string genName(sim::Rng &r) {
-    static const char *pool[] = {"a", "b", "alice", "bob", "x#1", "42", "0", "v-7", "\xc3\xa9t\xc3\xa9", "Z_z", "node:3", "#"};
+    static const char *pool[] = {"a", "b", "alice", "bob", "x#1", "42", "0", "v-7", "\xc3\xa9t\xc3\xa9", "Z_z", "node:3", "#",
+                                 "\xc3\x89ric", "Zo\xc3\xa0", "a\xc2\xa0" "b", "\x89\x8a\x8b\x8c\x8d\xa0"};
     if (r.pm(500)) {
-        std::string s = pool[r.below(12)];
+        std::string s = pool[r.below(16)];
         if (s == "#") s = "n#"; // a name never starts a line with '#'
         return s;
     }
@@ -52,6 +53,7 @@ inline std::string genName(sim::Rng &r) {
     int len = 1 + (int)r.below(12);
     for (int i = 0; i < len; ++i) {
         unsigned char c = (unsigned char)(33 + r.below(94)); // printable, non-blank
+        if (r.pm(200)) c = (unsigned char)(128 + r.below(128)); // any high byte is a legal name byte
         if (i == 0 && c == '#') c = 'h';
         s += (char)c;
     }
@@ -78,7 +80,9 @@ inline std::string genWellFormedText(sim::Rng &r, const std::string &lab, bool d
     std::vector<std::pair<std::string, std::string>> used;
     int lines = (int)r.below(14);
     bool finalNewline = r.pm(800);
+    const int giantAt = r.pm(8) ? (int)r.below((uint64_t)lines + 1) : -1; // rarely: one comment line longer than any buffer
     for (int i = 0; i < lines; ++i) {
+        if (i == giantAt) { const size_t len = 65530 + (size_t)r.below(5000); out += "# " + std::string(len, 'c') + " 1 2\n"; }
         if (r.pm(200)) { out += "#" + std::string(r.pm(500) ? " comment 1 2" : "") + "\n"; continue; }
         std::string a = pick(r, pool), b = pick(r, pool);
         bool dup = false;
@@ -187,7 +191,7 @@ inline sim::Plan genPlan(uint64_t seed, const std::string &profile, bool thoroug
         for (int i = 0; i < nops; ++i) {
             sim::Op o;
             o.k = "steps";
-            o.x = (int64_t)r.below(14);
+            o.x = (int64_t)r.below(15);
             o.a = (int64_t)r.below(1 << 16);
             o.b = (int64_t)r.below(1 << 16);
             int64_t algo = (int64_t)r.below(3);
@@ -240,10 +244,17 @@ inline sim::Plan genPlan(uint64_t seed, const std::string &profile, bool thoroug
             p.cfg["hub"] = hub + 1;
         }
     }
-    if (profile == "C18" && r.pm(12)) { // a shared graph above 1024 vertices (size thresholds inside the searches)
+    const bool coldStart = profile == "C18" && r.pm(200);
+    if (coldStart) { p.cfg["coldstart"] = 1; if (r.pm(350)) p.n0 = 0; }
+    if (profile == "C18" && !coldStart && r.pm(12)) { // a shared graph above 1024 vertices (size thresholds inside the searches)
         p.cfg["nmax"] = 1500;
         p.n0 = 1030 + (int64_t)r.below(400);
         p.cfg["huge"] = 1;
+    }
+    if (profile == "C07" && !large && r.pm(10)) { // a few hundred vertices: size thresholds inside subgraph extraction and searches
+        p.cfg["nmax"] = 300;
+        p.n0 = 200 + (int64_t)r.below(100);
+        p.cfg["xlarge"] = 1;
     }
     // very long histories (counters that trigger "every 1024th update" and the like): small graphs, few observer sweeps
     const bool longRun = !large && r.pm(4) && (profile == "C01" || profile == "C02" || profile == "C03" || profile == "C04" || profile == "C05" || profile == "C06" || profile == "C16");
@@ -270,9 +281,12 @@ inline sim::Plan genPlan(uint64_t seed, const std::string &profile, bool thoroug
     else if (profile == "C16") { pSnap = rate({0, 20}); pAlg = rate({0, 20}); }
     else if (profile == "C17") { pAlg = rate({100, 200, 300}); pSnap = rate({20, 50}); pPersist = rate({30, 60}); pReplica = rate({0, 30}); pIo = rate({0, 40, 80}); }
     else if (profile == "C18") { pAlg = rate({100, 200, 300}); pSnap = rate({20, 50}); pPersist = rate({30, 60}); pReplica = rate({0, 30}); pIo = rate({0, 30}); }
+    if (coldStart) { pAlg = pSnap = pPersist = pReplica = pIo = 0; nops = (int)r.below(8); }
     else if (profile == "C13" || profile == "C14" || profile == "C15") { pIo = rate({150, 300, 450}); pPersist = rate({100, 200}); nops = 1 + (int)r.below(thorough ? 40 : 20); }
     int pNoSweep = (profile == "C13" || profile == "C14" || profile == "C15") ? 0 : rate({0, 0, 0, 300, 600});
     if (large) { nops = 20 + (int)r.below(thorough ? 160 : 80); if (pNoSweep < 300) pNoSweep = 300; }
+    if (coldStart) pNoSweep = 1000;
+    if (p.c("xlarge")) { nops = 6 + (int)r.below(20); pReject = 600; pSnap = 0; }
     if (longRun) { nops = 1100 + (int)r.below(1600); pNoSweep = 880; pSnap = 0; pPersist = 0; pReplica = profile == "C06" ? 3 : 0; pReject = 0; p.cfg["long"] = 1; }
     p.cfg["p_nosweep"] = pNoSweep;
     p.cfg["p_reject"] = pReject; p.cfg["p_snapshot"] = pSnap; p.cfg["p_persist"] = pPersist; p.cfg["p_replica"] = pReplica; p.cfg["p_alg"] = pAlg; p.cfg["p_io"] = pIo;
@@ -332,7 +346,7 @@ inline sim::Plan genPlan(uint64_t seed, const std::string &profile, bool thoroug
         } else if ((t -= (unsigned)pPersist) < (unsigned)pReplica) {
             o.k = "replica"; o.x = (int64_t)r.below(1 << 24); o.y = (int64_t)r.below(3); o.b = (int64_t)r.below(64);
         } else if ((t -= (unsigned)pReplica) < (unsigned)pAlg) {
-            o.k = "alg"; o.x = (int64_t)r.below(16); o.a = (int64_t)r.below(64); o.b = (int64_t)r.below(256);
+            o.k = "alg"; o.x = (int64_t)r.below(18); o.a = (int64_t)r.below(64); o.b = (int64_t)r.below(256);
         } else if ((t -= (unsigned)pAlg) < (unsigned)pIo) {
             if (!templ) { --i; pIo = 0; continue; }
             unsigned u = (unsigned)r.below(100);
@@ -343,6 +357,8 @@ inline sim::Plan genPlan(uint64_t seed, const std::string &profile, bool thoroug
             } else if (profile == "C13") {
                 if (u < 20) { o.k = "openfail"; o.x = (int64_t)r.below(5); o.y = (int64_t)r.below(9); if (o.x == 1 || o.x == 4) o.x -= 1; }
                 else { o.k = "loadraw"; bool names = r.pm(450); o.x = names ? 1 : 0; o.y = 0; o.a = (int64_t)r.below(64); o.b = (int64_t)r.below(64); o.s = genWellFormedText(r, p.lab, directed, names); }
+            } else if (profile == "C14" && r.pm(15)) {
+                o.k = "earlyio";
             } else if (profile == "C14") {
                 if (u < 40) { o.k = "openfail"; o.x = (int64_t)r.below(5); o.y = (int64_t)r.below(9); }
                 else { o.k = "loadraw"; o.x = 2; o.y = 0; o.a = (int64_t)r.below(64); o.b = (int64_t)r.below(64); o.s = genBinaryFile(r, p.lab, directed, false); }
@@ -389,7 +405,7 @@ inline sim::Plan genPlan(uint64_t seed, const std::string &profile, bool thoroug
             int k = 3 + (int)r.below(8);
             for (int i = 0; i < k; ++i) {
                 sim::Op o;
-                o.k = "alg"; o.x = (int64_t)r.below(16); o.a = (int64_t)r.below(64); o.b = (int64_t)r.below(256);
+                o.k = "alg"; o.x = (int64_t)r.below(18); o.a = (int64_t)r.below(64); o.b = (int64_t)r.below(256);
                 ops.push_back(o);
             }
             p.tasks.push_back(ops);
